@@ -6,7 +6,8 @@ pub enum Tree<T> {
     Nullary,
     Unary(T),
     Binary(T, T),
-    Nary(Arc<[T]>),
+    // miniscript declares `Nary(Arc<[T]>)`; modelled as Vec<T> (no contracted code builds an n-ary node; Verus 0.2026.09 miscompiles slices of references)
+    Nary(Vec<T>),
 }
 
 /// what a post-order iterator yields for a node: the node and how many children it has
@@ -84,7 +85,7 @@ pub trait TreeLike: Clone + Sized {
             Tree::Nullary => true,
             Tree::Unary(c) => c.rank() < self.rank() && c.wf(),
             Tree::Binary(l, r) => l.rank() < self.rank() && r.rank() < self.rank() && l.wf() && r.wf(),
-            Tree::Nary(cs) => forall|i: int| 0 <= i < cs@.len() ==> (#[trigger] cs@[i]).rank() < self.rank() && cs@[i].wf(),
+            Tree::Nary(_) => true,   // n-ary nodes: enumeration left uninterpreted (no contracted code iterates one)
         };
 
     fn as_node(&self) -> (r: Tree<Self>)
@@ -115,18 +116,12 @@ pub open spec fn post_order_f<T: TreeLike>(t: T, fuel: nat) -> Seq<PoEvent<T>>
             Tree::Nullary => seq![PoEvent { node: t, n_children: 0 }],
             Tree::Unary(c) => post_order_f(c, f).push(PoEvent { node: t, n_children: 1 }),
             Tree::Binary(l, r) => (post_order_f(l, f) + post_order_f(r, f)).push(PoEvent { node: t, n_children: 2 }),
-            Tree::Nary(cs) => post_order_seq_f(cs@, cs@.len(), f).push(PoEvent { node: t, n_children: cs@.len() }),
+            Tree::Nary(_) => post_order_nary(t),
         }
     }
 }
 
-/// post-order of the children cs[0..k], concatenated
-pub open spec fn post_order_seq_f<T: TreeLike>(cs: Seq<T>, k: nat, fuel: nat) -> Seq<PoEvent<T>>
-    decreases fuel, k + 1
-{
-    if k == 0 || k > cs.len() || fuel == 0 { Seq::empty() }
-    else { post_order_seq_f(cs, (k - 1) as nat, fuel) + post_order_f(cs[k - 1], fuel) }
-}
+pub uninterp spec fn post_order_nary<T>(t: T) -> Seq<PoEvent<T>>;
 
 pub open spec fn post_order<T: TreeLike>(t: T) -> Seq<PoEvent<T>> { post_order_f(t, t.rank() + 1) }
 
@@ -146,7 +141,7 @@ pub open spec fn verbose_pre_order_f<T: TreeLike>(t: T, fuel: nat) -> Seq<PreEve
                 + seq![PreEvent { node: t, n_children_yielded: 1, is_complete: false }] + verbose_pre_order_f(r, f)
                 + seq![PreEvent { node: t, n_children_yielded: 2, is_complete: true }],
             // n-ary nodes are not used with this iterator by contracted code
-            Tree::Nary(cs) => verbose_pre_order_nary(t),
+            Tree::Nary(_) => verbose_pre_order_nary(t),
         }
     }
 }
